@@ -6,6 +6,7 @@ import Driver.KernFam
 import Driver.MeshFam
 import Driver.DispFam
 import Driver.ValidFam
+import Driver.StyleFam
 
 open Driver
 
@@ -26,6 +27,7 @@ def stepLine (st : St) (line : String) : St × String :=
   | "kern" :: _ => (st, KernFam.step (line.drop 5).toString)
   | "mesh" :: _ => (st, MeshFam.step (line.drop 5).toString)
   | "valid" :: _ => (st, ValidFam.step (line.drop 6).toString)
+  | "style" :: _ => (st, StyleFam.step (line.drop 6).toString)
   | "disp" :: _ => (st, DispFam.step (line.drop 5).toString)
   | _ => (st, "bad-family")
 
